@@ -482,6 +482,37 @@ where
                     pending.push(Call::ABool(*rng.pick(&cands)));
                 }
             }
+            95..=96 if rng.chance(2, 3) => {
+                // fusion gadgets: mul followed by adds that consume it, with the addend defined
+                // before or after the mul, chained and cascading (a candidate whose validity
+                // depends on another candidate being fused or rejected)
+                let (a, b2, c, d, e, f) = (pick(rng, &ids), pick(rng, &ids), pick(rng, &ids), pick(rng, &ids), pick(rng, &ids), pick(rng, &ids));
+                // markers: u32::MAX - k refers to the k-th most recent id of this group
+                match rng.below(4) {
+                    0 => {
+                        pending.push(Call::Mul(a, b2));
+                        pending.push(Call::Add(u32::MAX, c));
+                    }
+                    1 => {
+                        pending.push(Call::Mul(a, b2));
+                        pending.push(Call::Add(c, d));
+                        pending.push(Call::Add(u32::MAX - 1, u32::MAX));
+                    }
+                    2 => {
+                        pending.push(Call::Mul(a, b2));
+                        pending.push(Call::Mul(e, f));
+                        pending.push(Call::Add(c, d));
+                        pending.push(Call::Add(u32::MAX - 2, u32::MAX));
+                        pending.push(Call::Add(u32::MAX - 2, u32::MAX));
+                    }
+                    _ => {
+                        pending.push(Call::Mul(a, b2));
+                        pending.push(Call::Add(u32::MAX, c));
+                        pending.push(Call::Mul(e, f));
+                        pending.push(Call::Add(u32::MAX, u32::MAX - 1));
+                    }
+                }
+            }
             95..=96 => {
                 // sub of a product by a constant (lowering fast path with synthetic constant)
                 let m = Call::Mul(pick(rng, &ids), pick(rng, &ids));
@@ -505,10 +536,13 @@ where
         for mut c in pending {
             // resolve markers referring to ids returned by the previous calls of this group
             let fix = |x: &mut u32, last: &Vec<u32>| {
-                if *x == u32::MAX {
-                    *x = *last.last().unwrap();
-                } else if *x == u32::MAX - 1 {
-                    *x = last[last.len() - 2];
+                if *x >= u32::MAX - 8 {
+                    let k = (u32::MAX - *x) as usize;
+                    if k < last.len() {
+                        *x = last[last.len() - 1 - k];
+                    } else {
+                        *x = 0;
+                    }
                 }
             };
             match &mut c {
@@ -516,7 +550,7 @@ where
                     fix(a, &last);
                     fix(bb, &last);
                 }
-                Call::Sub(a, bb) => {
+                Call::Sub(a, bb) | Call::Add(a, bb) | Call::Mul(a, bb) => {
                     fix(a, &last);
                     fix(bb, &last);
                 }
